@@ -407,7 +407,7 @@ pub fn check(s: &'static dyn Proto, c: &Case, st: &mut Stats, _k: &KnownFindings
 
 pub const BUDGET: Budget = Budget {
     quick: (100, 40, 12),
-    thorough: (1000, 300, 100),
+    thorough: (3000, 900, 300),
     shrink: 60,
 };
 
